@@ -56,7 +56,8 @@ def scenarios(rng, tier):
         M = mac(1); s.frame(0, discover(M, gen=1)); s.frame(0, qlt(M, OWN0, 14, 0, seq=2)); s.frame(0, qlt(M, OWN0, 17, 0, seq=2))
         s.lines.append(Cfg(0, mtu=m1).line())
         for off in (m0 - 34, m0 - 34 + m1 - 34, 0, m1 - 34): s.frame(0, qlt(M, OWN0, 14, off, seq=3)); s.frame(0, qlt(M, OWN0, 17, off % 700, seq=3))
-    return [(s.text(), {})]
+    oth = other_iface_variants(s.text(), rng, 10 if tier == 'quick' else 150)
+    return [(s.text(), {}), (oth, {'family': 'other-interface'})]
 def project(blk, name, meta):
     if blk.fault: return ('fault',)
     if blk.op.startswith('frame'):
@@ -85,7 +86,7 @@ def oracle(name, ib, mb, meta):
             kv = dict(t.split('=', 1) for t in b.op.split()[2:]); mtu = int(kv.get('mtu', mtu)); own = bytes.fromhex(kv.get('mac', own.hex()))
             if kv.get('mtufail') == '1' or mtu == 0: mtu = 1500 if 'c08' != 'c06' else -1   # getter fails: the responder assumes 1500 (an Emit is dropped)
         elif b.op.startswith('cfg g'): g = gcfg_of(b.op)
-        if not b.op.startswith('frame') or b.fault: continue
+        if not b.op.startswith('frame 0 ') or b.fault: continue
         ctx, fr = frame_of(b); d = dec(fr + bytes(max(0, 36 - len(fr))))
         if d['tos'] not in (0, 1) or d['opc'] != 0x0B: continue
         sn = sends_of(b)
@@ -123,7 +124,7 @@ def count(name, lines, ib, stats, meta):
     mtu = 1500
     for b in ib:
         if b.op.startswith('cfg 0'): mtu = int(dict(t.split('=', 1) for t in b.op.split()[2:])['mtu'])
-        if not b.op.startswith('frame'): continue
+        if not b.op.startswith('frame 0 '): continue
         ctx, fr = frame_of(b); d = dec(fr + bytes(max(0, 36 - len(fr))))
         if d['opc'] != 0x0B: continue
         stats['evaluations'] += 1
